@@ -359,6 +359,36 @@ struct CppWorld : World {
         if (c.record) c.run->violation("C17", oracle, site, detail);
     }
 
+    // History independence (C13): an object of the same class that was only default-constructed and then cleared /
+    // destroyed (in 0xD7-filled memory like every object here, on a private entropy tape) must leave the same bytes as
+    // this one did after its whole life.  A differing byte was left over from what the object did (packets processed,
+    // nonce reached, keys seen).  clear() of the masked classes is excluded: it may leave a freshly masked zero key.
+    static void unused_object_residue(Ctx &c, const Cipher &C, bool via_clear)
+    {
+        if (!c.record || (via_clear && C.cls == C_MASK)) return;
+        static Cipher S; // 4 KiB: not on the stack
+        simrng_t tmp;
+        memset(&tmp, 0, sizeof tmp);
+        simrng_reset(&tmp, 0xBA5E11AEull, SIMRNG_RANDOM);
+        simrng_t *prev = simrng_cur();
+        simrng_use(&tmp);
+        ascon::aead *o = construct(S, C.cls, C.alg, 0, Bytes());
+        if (via_clear) o->clear();
+        o->~aead();
+        simrng_use(prev);
+        if (via_clear) return unused_cmp(c, C, S, "clear");
+        unused_cmp(c, C, S, "destructor");
+    }
+    static void unused_cmp(Ctx &c, const Cipher &C, const Cipher &S, const char *how)
+    {
+        c.run->probe("twin.free_vs_unused_object");
+        if (memcmp(C.mem, S.mem, C.size) == 0) return;
+        size_t d = 0;
+        while (d < C.size && C.mem[d] == S.mem[d]) ++d;
+        c.run->violation("C13", "residue_depends_on_history", fmt("%s%s.%s", cls_name[C.cls], alg_name[C.alg], how),
+                         fmt("byte %zu of %zu is 0x%02x after this object's history and 0x%02x for an object that was never used", d, C.size, C.mem[d], S.mem[d]));
+    }
+
     static void c_del(Ctx &c, int i, bool via_clear)
     {
         Cipher &C = c.c[i];
@@ -368,13 +398,30 @@ struct CppWorld : World {
             if (c.residue) {
                 // the vptr stays; everything else must be independent of the secrets
                 c.residue->push_back(Bytes(C.mem, C.mem + C.size));
+                // compared while the cleared object is still alive, against a cleared-and-still-alive unused one
+                if (c.record && C.cls != C_MASK) {
+                    static Cipher S;
+                    simrng_t tmp;
+                    memset(&tmp, 0, sizeof tmp);
+                    simrng_reset(&tmp, 0xBA5E11AEull, SIMRNG_RANDOM);
+                    simrng_t *prev = simrng_cur();
+                    simrng_use(&tmp);
+                    ascon::aead *o = construct(S, C.cls, C.alg, 0, Bytes());
+                    o->clear();
+                    unused_cmp(c, C, S, "clear");
+                    o->~aead();
+                    simrng_use(prev);
+                }
             }
             C.usable = false;
             C.key_known = C.nonce_known = false;
             return;
         }
         C.obj->~aead();
-        if (c.residue) c.residue->push_back(Bytes(C.mem, C.mem + C.size));
+        if (c.residue) {
+            c.residue->push_back(Bytes(C.mem, C.mem + C.size));
+            unused_object_residue(c, C, false);
+        }
         C.live = false;
     }
 
